@@ -39,7 +39,7 @@ def maybe(ctx):
     if ctx.tier == 'thorough' and ctx.shard == 0:
         saved = ctx.deadline
         import time
-        ctx.deadline = time.time() + 240
+        ctx.deadline = ctx.clock() + 240
         try:
             run(ctx)
         finally:
